@@ -46,8 +46,12 @@ def build_batches(scratch, versions, tier, rng_tag, n_stdlib, n_gen, batch=25, f
             sp = os.path.join(wd, "g%05d.py" % i)
             with open(sp, "w", encoding="utf-8", errors="surrogatepass") as f:
                 f.write(src_text)
-            items.append({"src": sp, "pyc": os.path.join(wd, "g%05d.pyc" % i), "filename": "gen%05d.py" % i,
-                          "tags": tags})
+            it = {"src": sp, "pyc": os.path.join(wd, "g%05d.pyc" % i), "filename": "gen%05d.py" % i, "tags": tags}
+            if v >= (3, 7) and i % 4 == 1:
+                it["pyc_flags"] = 1 if i % 8 == 1 else 3  # PEP 552 hash-based file (unchecked / checked)
+            elif i % 4 == 2:
+                it["mtime"] = rng.choice([0, 1, 0x7FFFFFFF, 0x80000000, 0xFFFFFFFF, 1700000000])
+            items.append(it)
         # programs that must be present whatever the seed: one per named feature template
         for j, tname in enumerate(must_templates):
             src_text, tags = G.gen_single(K.get_seed(), v, tname)
@@ -231,4 +235,30 @@ def synthetic_table_batches(scratch, versions, n_per_version, rng_tag):
             items.append({"pyc": os.path.join(wd, "tab%05d.pyc" % i), "tag": "%s/%s/%d" % (tag, K.vstr(v), i), "fields": fields})
         for bi, chunk in enumerate(K.chunks(items, 80)):
             batches.append({"v": v, "items": chunk, "mode": "mkcode", "truth_cmd": "mkcode", "workdir": wd, "tag": "tab%d" % bi})
+    return batches
+
+
+def synthetic_bigtable_batches(scratch, versions, rng_tag):
+    """Workload T: one code object per version with 66 000 constants and 66 000 names, indexed at the boundary operands
+    (built by V itself, truth.py mkcode; V's dis names the constant / name each operand resolves to)."""
+    import binascii
+
+    from .gen import codebytes as CB
+
+    n = 66000
+    consts = ["t", [["i", "%x" % (i + 1000)] for i in range(n)]]
+    names = ["t", [["u", "n%d" % i] for i in range(n)]]
+    batches = []
+    for v in versions:
+        wd = scratch.sub("t%d%d" % v)
+        tf, err = K.run_truth(v, "tables", {}, wd, "tables")
+        if tf is None:
+            continue
+        tables = K.read_jsonl(tf)[0]
+        code = CB.make_big_table_code(v, tables)
+        kind = "s" if v < (3, 0) else "B"
+        item = {"pyc": os.path.join(wd, "bigtab.pyc"), "tag": "synthetic-big-tables/%s" % K.vstr(v),
+                "fields": {"co_code": [kind, binascii.hexlify(code).decode()], "co_stacksize": ["i", "a"],
+                           "co_consts": consts, "co_names": names}}
+        batches.append({"v": v, "items": [item], "mode": "mkcode", "truth_cmd": "mkcode", "workdir": wd, "tag": "bigtab"})
     return batches
